@@ -243,29 +243,32 @@ def _run_faults(case):
                     for blank in [None] + list(range(1, nrows + 1)):
                         for crlf in (False, True):
                             for header, idx in ((["A", "B"], 0), (["B", "A"], 1)):
-                                rows = []
-                                for r in range(nrows):
-                                    a = badtext if r == bad_row else float(r + 1)
-                                    rows.append([a, 5.0] if idx == 0 else [5.0, a])
-                                text = _text(header, rows, crlf, blank)
-                                open(os.path.join(work, "f.csv"), "w", newline="").write(text)
-                                true_line = 2 + bad_row + (1 if blank is not None and blank <= bad_row + 1 else 0)
-                                res = _read(work, "f.csv", "A")
-                                evals += 1
-                                judged += 1
-                                tag = {"file": text, "field": "A", "bad_cell": badtext, "true_line": true_line}
-                                sample = tag
-                                if res[0] != "err":
-                                    viols.append(V("C17:fault:bad-cell-accepted", "non-numeric cell %r on line %d was read as %r" % (badtext, true_line, res[1]), **tag))
-                                    continue
-                                name = type(res[1]).__name__
-                                if name != "InvalidDataFile":
-                                    viols.append(V("C17:fault:bad-cell-wrong-error:" + name, "non-numeric cell %r gave %s" % (badtext, name), **tag))
-                                    continue
-                                m = re.search(r"line (\d+)", str(res[1]))
-                                if not m or int(m.group(1)) != true_line:
-                                    viols.append(V("C17:fault:wrong-file-line", "message says %r, the bad cell is on file line %d" % (m.group(0) if m else None, true_line), **tag))
-                                outcomes["bad-cell:line-%s" % ("ok" if m and int(m.group(1)) == true_line else "bad")] = outcomes.get("bad-cell:line-ok", 0) + 1
+                                for other in ((5.0, "") if badtext == "" else (5.0,)):
+                                    # (other == "": the whole row consists of separators only - still a data row with an empty cell, not a blank line)
+                                    rows = []
+                                    for r in range(nrows):
+                                        a = badtext if r == bad_row else float(r + 1)
+                                        o_ = other if r == bad_row else 5.0
+                                        rows.append([a, o_] if idx == 0 else [o_, a])
+                                    text = _text(header, rows, crlf, blank)
+                                    open(os.path.join(work, "f.csv"), "w", newline="").write(text)
+                                    true_line = 2 + bad_row + (1 if blank is not None and blank <= bad_row + 1 else 0)
+                                    res = _read(work, "f.csv", "A")
+                                    evals += 1
+                                    judged += 1
+                                    tag = {"file": text, "field": "A", "bad_cell": badtext, "true_line": true_line}
+                                    sample = tag
+                                    if res[0] != "err":
+                                        viols.append(V("C17:fault:bad-cell-accepted", "non-numeric cell %r on line %d was read as %r" % (badtext, true_line, res[1]), **tag))
+                                        continue
+                                    name = type(res[1]).__name__
+                                    if name != "InvalidDataFile":
+                                        viols.append(V("C17:fault:bad-cell-wrong-error:" + name, "non-numeric cell %r gave %s" % (badtext, name), **tag))
+                                        continue
+                                    m = re.search(r"line (\d+)", str(res[1]))
+                                    if not m or int(m.group(1)) != true_line:
+                                        viols.append(V("C17:fault:wrong-file-line", "message says %r, the bad cell is on file line %d" % (m.group(0) if m else None, true_line), **tag))
+                                    outcomes["bad-cell:line-%s" % ("ok" if m and int(m.group(1)) == true_line else "bad")] = outcomes.get("bad-cell:line-ok", 0) + 1
     finally:
         import shutil
         shutil.rmtree(work, ignore_errors=True)
